@@ -18,6 +18,7 @@ import (
 	"github.com/spf13/cobra"
 
 	"github.com/coreruleset/crs-toolchain/v2/context"
+	"github.com/coreruleset/crs-toolchain/v2/internal/verifhook"
 	"github.com/coreruleset/crs-toolchain/v2/regex"
 	"github.com/coreruleset/crs-toolchain/v2/regex/parser"
 	"github.com/coreruleset/crs-toolchain/v2/regex/processors"
@@ -187,7 +188,9 @@ func processFile(filePath string, ctxt *processors.Context, checkOnly bool) erro
 	indent := 0
 	for scanner.Scan() {
 		line := scanner.Bytes()
+		indentBefore := indent
 		line, indent, err = processLine(line, indent)
+		verifhook.Emit("fmt.line", "before", indentBefore, "after", indent, "failed", err != nil)
 		if err != nil {
 			logger.Error().Err(err).Msgf("failed to format %s", filename)
 			// don't write a file that lost the offending line
